@@ -523,6 +523,8 @@ def interop(c, f, structs_c=None, types_f=None, _depth=0):
     Returns (ok, reason)."""
     cb, ptr = c["base"], c["ptr"] + (1 if c.get("array") else 0)
     fb = f["base"]
+    if cb[0] == "struct" and structs_c is not None and cb[1] not in structs_c:
+        return None, "unresolved C type %s" % cb[1]
     if f["shape"] == "desc":
         return (cb[0] == "cdesc" and ptr == 1 and not f["value"]), "descriptor dummy needs CFI_cdesc_t *"
     if cb[0] == "cdesc":
